@@ -78,6 +78,20 @@ def _check(prop, tier, seed, replay, work, t0):
             druns.append({"config": c, "distinct": r["distinct"], "generated": r["generated"], "depth": r["depth"],
                           "wall_s": round(r["wall"], 1)})
 
+    # ---- input space: every well-formed stream shape up to the bound, enumerated by TLC ----
+    shapes = os.path.join(work, "shapes.ndjson")
+    nshapes = 0
+    if not replay:
+        slen = 5 if tier == "quick" else 6
+        cfg = ('SPECIFICATION Spec\nCONSTANTS\n  MaxLen = %d\n  ShapesFile = "%s"\nINVARIANTS TypeOK Balanced\n'
+               'CHECK_DEADLOCK FALSE\nPOSTCONDITION Shapes\n' % (slen, shapes))
+        r = vlib.tlc([os.path.join(SPEC, "ReplayStreams.tla")], "ReplayStreams", cfg, work, timeout=1800)
+        vlib.tlc_ok(r, "ReplayStreams.tla")
+        nshapes = sum(1 for _ in open(shapes))
+        states += r["distinct"]
+        trans += r["generated"]
+        druns.append({"spec": "ReplayStreams.tla", "MaxLen": slen, "complete_streams": nshapes, "distinct": r["distinct"]})
+
     # ---- real code: lockstep scenarios, traces ----
     tdir = os.path.join(work, "traces")
     os.makedirs(tdir)
@@ -88,14 +102,16 @@ def _check(prop, tier, seed, replay, work, t0):
     else:
         shards = vlib.NCPU
         n, items, maxcrash = (96, 7, 24) if tier == "quick" else (960, 10, 60)
+        stride = 0 if prop == "C01" else (5 if tier == "quick" else 2)
         cmds = [[drv, "-seed", str(seed), "-n", str(n), "-max-items", str(items), "-max-crash-runs", str(maxcrash),
+                 "-shapes", shapes, "-shape-crash-stride", str(stride),
                  "-shard", str(i), "-shards", str(shards), "-out", os.path.join(tdir, "t%d.ndjson" % i),
                  "-stats", os.path.join(tdir, "s%d.json" % i), "-scen", os.path.join(tdir, "c%d.ndjson" % i)]
                 for i in range(shards)]
     for rc, out in vlib.run_parallel(cmds, timeout=3000):
         if rc != 0:
             raise vlib.HarnessError("replaydrv failed (%d):\n%s" % (rc, out[-3000:]))
-    stats = {"scenarios": 0, "runs": 0, "crash_runs": 0, "events": 0, "requests": 0, "not_reproduced": 0, "distinct_scenarios": 0}
+    stats = {"scenarios": 0, "runs": 0, "crash_runs": 0, "events": 0, "requests": 0, "not_reproduced": 0, "distinct_scenarios": 0, "shapes": 0}
     samples = []
     trace = os.path.join(work, "trace.ndjson")
     with open(trace, "w") as w:
@@ -144,6 +160,7 @@ def _check(prop, tier, seed, replay, work, t0):
         "d_layer_runs": druns,
         "impl_runs": stats["runs"], "impl_crash_runs": stats["crash_runs"], "target_requests": stats["requests"],
         "trace_events": stats["events"], "distinct_base_streams": stats["distinct_scenarios"],
+        "tlc_enumerated_stream_shapes": nshapes, "shape_runs_both_modes": stats["shapes"],
         "trace_states": tr["distinct"],
         "violating_traces_all_properties_of_family": len({v["trace"] for v in viol}),
     }
